@@ -24,7 +24,9 @@ from mpf.core.utility_functions import Util  # noqa: E402
 VALUES = [None, True, False, 0, 1, -1, 2 ** 40, 0.5, -0.5, 255, 256, "", " ", "abc", "1", "1.5", "0x1F", "10ms", "2s",
           "none", "None", "a, b", "d1", "nodevice", [], [1], ["a", "b"], {}, {"a": 1}, [[1], {"b": 2}],
           {"a": {"b": [1]}}, "{machine.a}", "(token)", "nan", "inf", float("nan"), "yes", "on", "red", "ff0000",
-          "1,2,3", "300,0,0", 4, 3, "4", 1e-7, {"zz_unknown_key": 1}, [{"zz_unknown_key": 1}]]
+          "1,2,3", "300,0,0", 4, 3, "4", 1e-7, {"zz_unknown_key": 1}, [{"zz_unknown_key": 1}],
+          # mappings whose keys are not strings (legal YAML): a str-keyed dict must come back with str keys
+          {1: "red", "k": 5}, {2.5: "x"}]
 
 
 def in_range(v, param):
